@@ -185,6 +185,9 @@ func zzSchedule(reverse bool)          { panic("zz") }
 func zzDeepEqual(tag string, a, b interface{}, exclude string) { panic("zz") }
 `
 
+// NoSecondSolver switches the fallback to the second solver release off.
+var NoSecondSolver bool
+
 // Verdict of one obligation.
 type Verdict struct {
 	Obl    *Obligation
@@ -235,6 +238,17 @@ func (in *Interp) decide(o *Obligation) Verdict {
 				}
 			} else {
 				res = sol.Check(o.Guard, in.St.Not(o.Cond))
+				if res == smt.Unknown && in.Sol.Kind == "z3" && !NoSecondSolver {
+					// the solver gave up within its budget: the same question goes once to the other z3 release in
+					// the image (5.1.0), in a fresh context with the assumptions re-asserted; solver heuristics
+					// differ between releases and a query at the edge of the budget for one is often quick for the other
+					if f, err := smt.NewSolver("z3-new", in.St, in.Sol.Timeout()); err == nil {
+						sol = f
+						defer func() { in.Sol.Account(f); f.Close() }()
+						res = sol.Check(in.Valid, o.Guard, in.St.Not(o.Cond))
+						in.SecondSolver++
+					}
+				}
 			}
 			switch res {
 			case smt.Unsat:
